@@ -130,6 +130,9 @@ class Check(FormulaCheck):
                 self.expect(key + ':position-0-yields-an-element' + tag, self.is_err(g) or g == whole, formula=f, array=arr, got=g)
             else:
                 self.expect(key + ':position-outside-yields-a-value' + tag, self.is_err(g), formula=f, array=arr, got=g)
+                if rnd.random() < 0.2 and self.is_err(g):
+                    tri = (self.ev('ISERROR(%s)' % f), self.ev('IFERROR(%s,"e")' % f), self.ev('ISERR(%s)' % f) is True or self.ev('ISNA(%s)' % f) is True)
+                    self.expect(key + ':outside-error-not-seen-by-ISERROR-IFERROR', tri == (True, 'e', True), formula=f, array=arr, got=tri)
             return
         rr = None if (r is None or r == 0) else r
         cc = None if (c is None or c == 0) else c
@@ -212,6 +215,11 @@ class Check(FormulaCheck):
             g = self.ev('MATCH(%s,%s,0)' % (hx.lit(x), a_txt))
             exp = next((i + 1 for i, v in enumerate(perm) if v == x), 'ERR:#N/A')
             self.expect('C18/MATCH-exact', g == exp, array=perm, x=x, got=g, expected=exp, injected=how)
+            if exp == 'ERR:#N/A' and rnd.random() < 0.5:
+                # "none" is #N/A to every function that looks at errors, not only at the top of the formula
+                fm = 'MATCH(%s,%s,0)' % (hx.lit(x), a_txt)
+                quad = (self.ev('ISNA(%s)' % fm), self.ev('IFNA(%s,"none")' % fm), self.ev('ERROR.TYPE(%s)' % fm), self.ev('ISERR(%s)' % fm), self.ev('IFERROR(%s,"e")' % fm))
+                self.expect('C18/MATCH:none-is-not-#N/A-to-ISNA-IFNA-ERROR.TYPE', quad == (True, 'none', 7, False, 'e'), formula=fm, array=perm, got=quad)
             # the same number given in the other representation (2 / 2.0, as host value): equal is equal
             if isinstance(x, (int, float)) and x == int(x):
                 other = float(x) if isinstance(x, int) else int(x)
